@@ -9,7 +9,8 @@ import (
 )
 
 const (
-	minLongSmsHeaderLength = 6 // Additional header length for long SMS
+	minLongSmsHeaderLength = 6   // Additional header length for long SMS
+	maxLongSmsParts        = 255 // total and index are one octet each
 
 	// Protocol header format of 6 for long SMS: 05 00 03 XX MM NN
 	longMsgHeader6ByteFrameKey   = byte(0x05)
@@ -85,6 +86,10 @@ func EncodeCMPPContentAndSplit(ctx context.Context, content string, msgFmt datac
 		return [][]byte{encodedData}, actualMsgFmt, nil
 	}
 
+	if n := ceil(len(encodedData), perMsgLength); n > maxLongSmsParts {
+		return nil, 0, fmt.Errorf("content needs %d parts, more than %d", n, maxLongSmsParts)
+	}
+
 	return splitWithUDHI(encodedData, perMsgLength, frameKey), actualMsgFmt, nil
 }
 
@@ -150,6 +155,10 @@ func EncodeSMPPContentAndSplit(ctx context.Context, content string, msgFmt datac
 	// short message
 	if len(encodedData) <= maxLongLength {
 		return [][]byte{encodedData}, actualMsgFmt, nil
+	}
+
+	if n := ceil(len(encodedData), perMsgLength); n > maxLongSmsParts {
+		return nil, 0, fmt.Errorf("content needs %d parts, more than %d", n, maxLongSmsParts)
 	}
 
 	return splitWithUDHI(encodedData, perMsgLength, frameKey), actualMsgFmt, nil
@@ -229,6 +238,9 @@ func encodeAndSplitGSM7Packed(content string, frameKey byte) ([][]byte, datacodi
 		res = append(res, contentByte)
 
 		begin = end
+	}
+	if len(res) > maxLongSmsParts {
+		return nil, 0, fmt.Errorf("content needs %d parts, more than %d", len(res), maxLongSmsParts)
 	}
 	for idx := range res {
 		res[idx][4] = byte(len(res))
